@@ -124,7 +124,9 @@ fn record_of(report: &[u8], name: &str) -> Option<Vec<String>> {
     let mut cur: Option<Vec<String>> = None;
     for l in t.lines() {
         if let Some(f) = l.strip_prefix("SF:") {
-            cur = if f.ends_with(name) { Some(vec![]) } else { None };
+            // the control's own file: the path is `name` itself or ends with `/name` (a generated name such
+            // as `src/psr\u{fffd}ok.c` merely ends with the same letters)
+            cur = if f == name || f.ends_with(&format!("/{}", name)) { Some(vec![]) } else { None };
         } else if l == "end_of_record" {
             if let Some(mut v) = cur.take() {
                 v.sort();
@@ -142,6 +144,8 @@ struct Dir {
     /// (file name on disk, bytes)
     files: Vec<(String, Vec<u8>)>,
     control: String,
+    /// file stem of the control pair on disk (`zz` for generated directories, `t3` in the corpus witness)
+    control_stem: String,
 }
 
 fn judge(rep: &mut Report, bin: &Path, d: &Dir, tag: &str) {
@@ -150,14 +154,14 @@ fn judge(rep: &mut Report, bin: &Path, d: &Dir, tag: &str) {
     let (mixed, alone) = (root.join("mixed"), root.join("alone"));
     std::fs::create_dir_all(&mixed).unwrap();
     std::fs::create_dir_all(&alone).unwrap();
-    let stem = d.files.iter().find(|f| f.1.windows(d.control.len()).any(|w| w == d.control.as_bytes()) && f.0.ends_with(".gcno")).map(|f| f.0.trim_end_matches(".gcno").to_string()).unwrap_or_default();
+    let stem = d.control_stem.clone();
     for (n, b) in &d.files {
         std::fs::write(mixed.join(n), b).unwrap();
         if n.trim_end_matches(".gcno").trim_end_matches(".gcda") == stem {
             std::fs::write(alone.join(n), b).unwrap();
         }
     }
-    let case = json!({"op": "clinames.case", "what": d.what, "control": d.control,
+    let case = json!({"op": "clinames.case", "what": d.what, "control": d.control, "control_stem": d.control_stem,
         "files": d.files.iter().map(|(n, b)| json!({"name": n, "hex": hex(b)})).collect::<Vec<_>>()});
     let (c0, r0, e0) = run_cli(bin, &alone, &root.join("alone.lcov"), 1);
     let want = record_of(&r0, &d.control);
@@ -212,6 +216,7 @@ fn dir_of(case: &Value) -> Dir {
     Dir {
         what: case["what"].as_str().unwrap_or("corpus").to_string(),
         control: case["control"].as_str().unwrap_or("ok.c").to_string(),
+        control_stem: case["control_stem"].as_str().unwrap_or("zz").to_string(),
         files: case["files"].as_array().map(|a| a.iter().map(|f| (f["name"].as_str().unwrap_or("x").to_string(), unhex(f["hex"].as_str().unwrap_or("")))).collect()).unwrap_or_default(),
     }
 }
@@ -306,7 +311,7 @@ pub fn run(rep: &mut Report) {
         let fname = if rng.chance(1, 2) { bad_name(&mut rng) } else { b"main".to_vec() };
         files.push(("zz.gcno".into(), gcno(b"ok.c", &fname)));
         files.push(("zz.gcda".into(), gcda(3)));
-        judge(rep, &bin, &Dir { what: format!("{} generated pairs with non-UTF-8 names and the control", n), files, control: "ok.c".into() }, &format!("gen{}", k));
+        judge(rep, &bin, &Dir { what: format!("{} generated pairs with non-UTF-8 names and the control", n), files, control: "ok.c".into(), control_stem: "zz".into() }, &format!("gen{}", k));
     }
 }
 
